@@ -187,6 +187,10 @@ def _alarm(*a):
 
 @contextlib.contextmanager
 def time_limit(seconds):
+    """Wall-clock guard around one compilation / straight-line case.  Programs are stopped by STEP budgets; this guard only exists so
+    that a compiler that hangs is noticed at all.  On a loaded machine a 120 s limit was hit by a compilation that takes 0.3 s (thorough
+    sweep, seed 13), so the limit is never shorter than 15 minutes: load must not turn into a verdict."""
+    seconds = max(seconds, 900)
     old = signal.signal(signal.SIGALRM, _alarm)
     signal.setitimer(signal.ITIMER_REAL, seconds)
     try:
